@@ -1,5 +1,6 @@
 import RSV.Props.C08
 import RSV.Props.C08asm
+import RSV.Props.C08asmLeo
 /-! C08 umbrella: the per-lane recipes, counts, slot layout and the regenerated kernel switch (`RSV.Props.C08`), and the
 reflective checker for the text of the 600 generated amd64 kernels with its soundness theorem (`RSV.Props.C08asm`:
 an accepted kernel, run by the byte-level instruction semantics on any environment meeting the calling contract,
